@@ -8,9 +8,9 @@ from .. import common as C
 from ..runner import run_given
 
 PROPERTY = 'C06'
-RULE = ("Fxp(v, [signed], [one or two of n_word/n_frac/n_int]) for dyadic scalars and 1-d/2-d arrays (k/2^f, f<=20, |k|<2^40, k biased to +-2^j, 2^j-1, -2^j+1): inferred format must equal an independent "
+RULE = ("Fxp(v, [signed], [one or two of n_word/n_frac/n_int]) for dyadic scalars and 1-d/2-d arrays (k/2^f, f<=20, |k|<2^40, k biased to +-2^j, 2^j-1, -2^j+1; plus doubles of either sign with a 40..53-bit odd mantissa over 2^45..2^58 whose exact word still fits 64 bits; a given n_frac may be far larger than needed, up to the 64-bit word limit): inferred format must equal an independent "
         "minimal-format search (fewest fraction bits, then fewest word bits with n_int>=0, + sign bit), values read back exactly with no flag; n_word only => n_frac=min(exact, n_word-sign-n_int_needed); "
-        "n_frac only => minimal word for the truncated codes; n_int + one other => arithmetic identity; result then equals the reference quantizer. Capped case: doubles needing more than 64 bits => n_word<=64, "
+        "n_frac only => minimal word for the truncated codes; n_int + one other => arithmetic identity; result then equals the reference quantizer. Capped case: doubles (and arrays of doubles) needing more than 64 bits => n_word<=64, "
         "|q-v|<LSB, no overflow flag, inaccuracy flag iff q!=v. Non-trivial = some value needs a fraction bit or >=8 integer bits, or an array with heterogeneous requirements; distinct = distinct case keys.")
 ASSUMPTIONS = ['values are exact doubles / python ints; default configuration (trunc, saturate, n_word_max=64)', 'unsigned zero infers a 0-bit word (fxp-u0/0), accepted as minimal']
 EXHAUSTIVE = False
@@ -219,8 +219,17 @@ def replay(ctx, case):
 @st.composite
 def st_dyadic(draw, nonneg):
     f = draw(st.sampled_from([0, 0, 0, 1, 2, 3, 5, 8, 12, 20]))
-    kind = draw(st.sampled_from(['pow2', 'pow2m1', 'negpow2p1', 'small', 'rand', 'zero']))
+    kind = draw(st.sampled_from(['pow2', 'pow2m1', 'negpow2p1', 'small', 'rand', 'zero', 'double']))
     j = draw(st.integers(0, 39))
+    if kind == 'double':
+        # a non-dyadic-looking double of either sign (like 0.1, -0.3, -5.7): an odd 40..53-bit mantissa over 2^f, f in 45..58,
+        # chosen so that the exact word stays within 64 bits
+        nb = draw(st.integers(40, 53))
+        k = draw(st.integers(1 << (nb - 1), (1 << nb) - 1)) | 1
+        f = draw(st.integers(max(45, nb - 4), min(58, 62)))
+        if not nonneg and draw(st.booleans()):
+            k = -k
+        return [k, f], kind
     if kind == 'pow2':
         k = (1 << j) * draw(st.sampled_from([1, -1]))
     elif kind == 'pow2m1':
@@ -271,6 +280,9 @@ def st_case(draw):
         given['n_word'] = max(w_star + draw(st.integers(-2, 3)), 1)
     if 'n_frac' in which:
         given['n_frac'] = max(f_star + draw(st.integers(-2, 2)), 0)
+        if which == 'n_frac' and draw(st.integers(0, 3)) == 0:
+            # many more fraction bits than the values need, often right up to the 64-bit limit of the word
+            given['n_frac'] = draw(st.sampled_from([16, 24, 32, max(64 - (1 if sg else 0) - n_int_needed, f_star), max(63 - (1 if sg else 0) - n_int_needed, f_star)]))
     if 'n_int' in which:
         given['n_int'] = max(n_int_needed + draw(st.integers(-1, 2)), 0)
         if given['n_word'] is not None:
